@@ -6,7 +6,7 @@
    leveldb, pebble, memorydb, rawdb table since the F1 repair) -- StateProcessor.Process. *)
 From Coq Require Import List NArith Bool.
 From GQ Require Import Lib.Key Lib.SMap Generated.C01Params Model.C01 Proofs.C01_View Proofs.C01_Sim
-     Proofs.C01_Steps Proofs.C01_Ledger Proofs.C01_Den Proofs.C01_Worker Proofs.C01_Worker2 Proofs.C01 Proofs.C01_Worker3 Proofs.C01_Pool.
+     Proofs.C01_Steps Proofs.C01_Ledger Proofs.C01_Den Proofs.C01_Worker Proofs.C01_Worker2 Proofs.C01 Proofs.C01_Worker3 Proofs.C01_Pool Proofs.C01_Supply.
 Import ListNotations.
 Local Open Scope N_scope.
 
@@ -242,6 +242,52 @@ Theorem qi_unsound_cache_entry_admits_forged_refuted :
 Proof. exact forged_behind_cache. Qed.
 Print Assumptions qi_unsound_cache_entry_admits_forged_refuted.
 
+(* ---- block- and chain-level supply accounting (extension round): the statement's last clause, "Qi supply
+   changes only through coinbase, conversion and trimming events", for the part of it that is the work of
+   ProcessQiTx: processing Qi transactions never adds value to the 'ut' records. *)
+
+(* rawdb.DeleteUTXO removes exactly the value of the record it finds; rawdb.CreateUTXO adds the value of the new
+   record and drops the value of a record it overwrites (oval None = 0). *)
+Theorem qi_create_delete_value : forall (l : ledger) k u,
+  value_of (del k l) + oval (get k l) = value_of l
+  /\ value_of (put k u l) + oval (get k l) = value_of l + uval u.
+Proof. exact create_delete_value. Qed.
+Print Assumptions qi_create_delete_value.
+
+(* One accepted block on a tracking batch, every fork regime, EXACT: value of the records after the block + fees +
+   value carried away by ETXs (other chains, conversion, wrapping) + value of records overwritten by a creation
+   = value before + the pre-fork wrapping double entry. *)
+Theorem qi_block_supply_exact : forall (l : ledger) c txs rs l', sorted l ->
+  run_block true l c txs = (rs, true, l') ->
+  value_of l' + block_outflow rs + overwritten l (block_events rs) = value_of l + block_dbl c txs.
+Proof. exact block_supply. Qed.
+Print Assumptions qi_block_supply_exact.
+
+(* Any chain of blocks (accepted or rejected, each with its own header context), every fork regime: value held
+   afterwards + everything that left <= value held before + the pre-fork double entries of the accepted blocks. *)
+Theorem qi_chain_supply : forall blocks (l : ledger), sorted l ->
+  value_of (final_ledger l (run_chain true l blocks)) + chain_outflow (run_chain true l blocks)
+  <= value_of l + chain_dbl blocks (run_chain true l blocks).
+Proof. exact chain_supply. Qed.
+Print Assumptions qi_chain_supply.
+
+(* From QiWrappingChangeBlock on, no hypothesis on the transactions: no sequence of blocks makes the ledger hold
+   more than it held minus what it paid out -- no Qi from nothing, over all histories. *)
+Theorem qi_chain_no_inflation_after_wrapping_fork : forall (l : ledger) blocks, sorted l ->
+  Forall (fun b => qi_wrapping_change_block <= c_ptn (fst b)) blocks ->
+  value_of (final_ledger l (run_chain true l blocks)) + chain_outflow (run_chain true l blocks) <= value_of l.
+Proof. exact chain_no_inflation. Qed.
+Print Assumptions qi_chain_no_inflation_after_wrapping_fork.
+
+(* ... and the block the node assembles from its own pool balances in the same way when it is processed. *)
+Theorem worker_block_supply_qi : forall c (l : ledger) txs, sorted l ->
+  Forall (fun t => pool_ok c l t /\ fresh l t /\ sig_fine t) txs ->
+  exists rs l', run_block true l c (accepted_txs txs (fst (worker_txs c l true (init_wenv c) txs))) = (rs, true, l')
+    /\ value_of l' + block_outflow rs + overwritten l (block_events rs)
+       = value_of l + block_dbl c (accepted_txs txs (fst (worker_txs c l true (init_wenv c) txs))).
+Proof. exact worker_block_supply. Qed.
+Print Assumptions worker_block_supply_qi.
+
 (* ---- non-vacuity: concrete accepted / rejected instances of the hypotheses above *)
 
 (* an accepted one-input transaction: 1000 -> 500 + 100, fee 400 *)
@@ -308,4 +354,20 @@ Proof.
   split; [vm_compute; reflexivity|]. split; [vm_compute; reflexivity|].
   split; [apply (cache_only_verified (fun _ => true) [(w_ctx, w_ledger, [p_forged; x_tx1])])|].
   eexists; eexists. vm_compute. reflexivity.
+Qed.
+
+(* supply accounting: 1000 before; 600 after + 400 fee, nothing overwritten; two blocks of a chain (the second one a
+   rejected re-spend) leave 600 + 400 = 1000 *)
+Example qi_supply_nonvacuous :
+  (exists rs l', run_block true w_ledger w_ctx [x_tx1] = (rs, true, l')
+     /\ value_of w_ledger = 1000 /\ value_of l' = 600 /\ block_outflow rs = 400
+     /\ overwritten w_ledger (block_events rs) = 0 /\ block_dbl w_ctx [x_tx1] = 0)
+  /\ (let os := run_chain true w_ledger [(w_ctx, [x_tx1]); (w_ctx, [x_tx2])] in
+      value_of (final_ledger w_ledger os) = 600 /\ chain_outflow os = 400 /\ map (fun o => snd (fst o)) os = [true; false])
+  /\ qi_wrapping_change_block <= c_ptn w_ctx.
+Proof.
+  split; [|split].
+  - eexists; eexists. split; [vm_compute; reflexivity|]. repeat split; vm_compute; reflexivity.
+  - vm_compute. repeat split; reflexivity.
+  - vm_compute. discriminate.
 Qed.
